@@ -252,7 +252,7 @@ func (o *outBuf) snapshot() []byte {
 
 func e2eEval(r *core.Run, c *e2eCase) {
 	cmd := exec.Command(filepath.Join(os.Getenv("VERIF_BIN"), "pp"), "-rebase=false")
-	cmd.Env = []string{"GOTRACEBACK=all", "TERM=dumb", "PATH=" + os.Getenv("PATH"), "HOME=" + os.Getenv("VERIF_WORK")}
+	cmd.Env = []string{"GOTRACEBACK=all", "TERM=dumb", "PATH=" + os.Getenv("PATH"), "HOME=" + os.Getenv("VERIF_WORK"), "GOCOVERDIR=" + os.Getenv("GOCOVERDIR")}
 	stdin, err := cmd.StdinPipe()
 	if err != nil {
 		r.Broken(err.Error())
